@@ -12,7 +12,7 @@ Ground truth (`spec`), all integers:
   routes      [[x, y, entry], ...]        P2P table of the boot chip (entry 0..7, 6 = no route)
   chips       [[x, y, chip], ...]         chip = {nc, states[18], links (6-bit mask), sdram, sram, rtr,
                                           eth_up, ip[4], eth[2], answer}
-                                          answer = "ok" | "silent" | ["rc", code] | ["flaky", k, how]
+                                          answer = "ok" | "silent" | ["rc", code] | ["flaky", k, how] | ["busy_for", seconds]
                                           (how = "drop" | "busy" | "sum": the first k transmissions of each
                                           command are lost / refused with a retryable return code)
   sver        {buffer_size, encoding ("legacy" | "semver"), name, version[3], labels, build_date, pcpu, nuls}
@@ -66,8 +66,23 @@ class SimMachine(object):
         for pr in spec.get("probes", []):
             self.probes.setdefault(tuple(pr["chip"]), []).append(pr)
         self.tx_count = {}
+        self.first_seen = {}
         self.log = []                     # (x, y, p, cmd, arg1, arg2, arg3) of every datagram received
         self._regions = {}
+        # memory layout of the system software's structs: the documented one unless the machine state carries
+        # `layout` = {sv_base, sv {field: offset}, vcpu_size, vcpu {field: offset}} (another build of SC&MP / SARK,
+        # described to the controller through its `structs=` argument)
+        lay = spec.get("layout") or {}
+        self.sv_base = lay.get("sv_base", SV_BASE)
+        self.sv_off = dict(p2p_dims=SV_P2P_DIMS, eth_addr=SV_ETH_ADDR, iobuf_size=SV_IOBUF_SIZE,
+                           num_cpus=SV_NUM_CPUS, vcpu_base=SV_VCPU_BASE)
+        self.sv_off.update(lay.get("sv", {}))
+        self.vcpu_size = lay.get("vcpu_size", VCPU_SIZE)
+        voff = dict((name, off) for name, off, ch in VCPU_FIELDS)
+        voff["__PAD"] = 0x60
+        voff.update(lay.get("vcpu", {}))
+        self.vcpu_fields = [(name, voff[name], ch) for name, off, ch in VCPU_FIELDS]
+        self.vcpu_pad = voff["__PAD"]
 
     # ------------------------------------------------------------------ memory
     def p2p_word(self, x, k):
@@ -86,14 +101,14 @@ class SimMachine(object):
         sv = bytearray(SV_SIZE)
         c = self.chips.get(chip)
         if chip == self.boot:
-            struct.pack_into("<H", sv, SV_P2P_DIMS, (self.w << 8) | self.h)
+            struct.pack_into("<H", sv, self.sv_off["p2p_dims"], (self.w << 8) | self.h)
         if c is not None:
-            struct.pack_into("<H", sv, SV_ETH_ADDR, (c["eth"][0] << 8) | c["eth"][1])
-            sv[SV_NUM_CPUS] = c["nc"] & 0xff
+            struct.pack_into("<H", sv, self.sv_off["eth_addr"], (c["eth"][0] << 8) | c["eth"][1])
+            sv[self.sv_off["num_cpus"]] = c["nc"] & 0xff
         if probes:
-            struct.pack_into("<I", sv, SV_IOBUF_SIZE, probes[0]["iobuf_size"])
-            struct.pack_into("<I", sv, SV_VCPU_BASE, probes[0]["vcpu_base"])
-        regs.append((SV_BASE, bytes(sv)))
+            struct.pack_into("<I", sv, self.sv_off["iobuf_size"], probes[0]["iobuf_size"])
+            struct.pack_into("<I", sv, self.sv_off["vcpu_base"], probes[0]["vcpu_base"])
+        regs.append((self.sv_base, bytes(sv)))
         if chip == self.boot:
             cols = set(range(self.w)) | set(x for (x, y) in self.routes)
             nrows = p2p_column_rows(self.h)
@@ -101,15 +116,15 @@ class SimMachine(object):
                 words = [self.p2p_word(x, k) for k in range(nrows // 8)]
                 regs.append((RTR_P2P + 128 * x, struct.pack("<%dI" % len(words), *words)))
         for pr in probes:
-            blk = bytearray(VCPU_SIZE)
+            blk = bytearray(self.vcpu_size)
             v = pr["vcpu"]
-            for name, off, ch in VCPU_FIELDS:
+            for name, off, ch in self.vcpu_fields:
                 if ch == "16s":
                     struct.pack_into("<16s", blk, off, bytes(bytearray(v[name])))
                 else:
                     struct.pack_into("<" + ch, blk, off, v[name])
-            struct.pack_into("<4I", blk, 0x60, *v.get("pad", [0, 0, 0, 0]))
-            regs.append((pr["vcpu_base"] + VCPU_SIZE * pr["p"], bytes(blk)))
+            struct.pack_into("<4I", blk, self.vcpu_pad, *v.get("pad", [0, 0, 0, 0]))
+            regs.append((pr["vcpu_base"] + self.vcpu_size * pr["p"], bytes(blk)))
             chain = pr["iobuf"]
             for i, b in enumerate(chain):
                 nxt = b.get("next", chain[i + 1]["addr"] if i + 1 < len(chain) else 0)
@@ -155,8 +170,8 @@ class SimMachine(object):
             data = bytes(bytearray(s["raw_data"]))
         return arg1, (ver << 16) | (s["buffer_size"] & 0xffff), s["build_date"], data
 
-    def handle(self, dgram):
-        """One request datagram -> list of reply datagrams (empty: no answer)."""
+    def handle(self, dgram, now=0.0):
+        """One request datagram arriving at (virtual) time `now` -> list of reply datagrams (empty: no answer)."""
         flags, tag, dpc, spc, dy, dx, sy, sx = struct.unpack_from("<2x8B", dgram)
         cmd, seq = struct.unpack_from("<2H", dgram, 10)
         args = struct.unpack_from("<3I", dgram, 14) if len(dgram) >= 26 else (0, 0, 0)
@@ -181,6 +196,12 @@ class SimMachine(object):
                 if answer[2] == "drop":
                     return []
                 return reply(RC_P2P_BUSY if answer[2] == "busy" else RC_SUM)
+        if isinstance(answer, list) and answer[0] == "busy_for":
+            # busy for a period of (virtual) wall-clock time after a command first arrives, whatever the number of
+            # transmissions in that period
+            t0 = self.first_seen.setdefault(bytes(dgram), now)
+            if now < t0 + answer[1]:
+                return reply(RC_P2P_BUSY)
         if cmd == CMD_VER:
             a1, a2, a3, data = self.sver_reply(chip, p)
             return reply(RC_OK, (a1, a2, a3), data)
@@ -217,7 +238,7 @@ class FakeSocket(object):
 
     def send(self, data):
         self.net.nsent += 1
-        self.net.queue.extend(self.net.machine.handle(bytes(data)))
+        self.net.queue.extend(self.net.machine.handle(bytes(data), self.net.now))
         return len(data)
 
     def recv(self, n):
